@@ -151,7 +151,20 @@ fn priv_macro_call_data<'db>(
         });
     }
     let mut matcher_ctx = MatcherContext { captures, placeholder_to_rep_id, ..Default::default() };
-    let expanded_code = expand_macro_rule(db, rule, &mut matcher_ctx).unwrap();
+    // An expansion failure was already reported as a diagnostic: the call has no module.
+    let expanded_code = match expand_macro_rule(db, rule, &mut matcher_ctx) {
+        Ok(expanded_code) => expanded_code,
+        Err(diag_added) => {
+            return Ok(MacroCallData {
+                macro_call_module: Err(diag_added),
+                diagnostics: diagnostics.build(),
+                defsite_module_id,
+                callsite_module_id,
+                expansion_mappings: Arc::new([]),
+                parent_macro_call_data,
+            });
+        }
+    };
     let generated_file_id = FileLongId::Virtual(VirtualFile {
         parent: Some(macro_call_syntax.stable_ptr(db).untyped().span_in_file(db)),
         name: macro_name,
